@@ -1047,6 +1047,10 @@ class FreeForm:
     def lab(self, n):
         """spelling of label n: any name will do, including the reserved `.lc<N>` family (the scanner runs every
         label name through process_reserved_name)"""
+        if self.per_module_labels:
+            # label names are scoped by module: every module of the text starts again at the same spellings
+            k = self.modlab.setdefault(n, len(self.modlab) + 1)
+            return (".lc%d" if self.lc_labels else "L%d") % k
         if not self.lc_labels:
             return "L%d" % n
         if n not in self.labmap:
@@ -1064,8 +1068,10 @@ class FreeForm:
         r = self.r
         out = ""
         self.lc_labels = r.chance(1, 4)
+        self.per_module_labels = r.chance(1, 2)
         self.labmap = {}
         for m in mods:
+            self.modlab = {}
             out += m["name"] + self.ws() + ":" + self.ws() + "module" + self.eol()
             for it in m["items"]:
                 k = it["kind"]
